@@ -129,6 +129,7 @@ type Engine struct {
 	clockLast    *Term
 	registry     map[string]value
 	netDials     int
+	lastPanicStack []string
 }
 
 var E *Engine
@@ -474,6 +475,9 @@ func (e *Engine) recordViolation(label, kind, detail string, m Model) {
 	}
 	v.Order = append([]string(nil), e.varOrder...)
 	v.Trace = e.stack()
+	if kind != "assert" && len(e.lastPanicStack) > 0 {
+		v.Trace = e.lastPanicStack
+	}
 	e.Violations[label] = v
 	if e.verbose {
 		fmt.Fprintf(os.Stderr, "VIOLATION %s %s: %s model=%v\n", kind, label, detail, v.Model)
